@@ -336,7 +336,7 @@ var ccIDPool = []string{"i1", "i2", "I2"}
 
 func genC10(c *Ctx) error {
 	c.ShardSize = 20
-	c.Notes["rule"] = "two deployed chaincodes (TT, VT), two users and the admin. (one) arbitrary step sequences on one channel: customer / admin initiations (own token, grouped token, other channel's token, foreign token, wrong channel, ids a maintainer would reject, over-funded amounts) and the robot's createTo / cancel / commit / deleteFrom / deleteTo attempted at random times, also out of turn and repeated, the id now and then spelled ./id, id/ or x/../id (the same record); observed after every step. (two) interleavings of user initiations on both channels with a robot that picks, at random, among the steps its protocol enables from the two ledgers, and with customers' certificates calling the robot's five functions (create-to with the origin's real record, cancel, commit, deletes; an accepted submission is executed by the robot's next batch); both ledgers observed at the end. In both parts the records of a channel are now and then rewritten into the binary form of earlier releases, which the library reads as well. (three) one transfer under a plain, grouped or many-part ticker (TT, TT_G1, TT_A_G1, TT_A_B, TT_B_A_B, ...), created and cancelled, or carried through the whole protocol there and back again: every balance entry of both channels before and after. Non-trivial: a history with >= 2 successful and >= 2 rejected steps / >= 3 robot steps."
+	c.Notes["rule"] = "two deployed chaincodes (TT, VT), two users and the admin. (one) arbitrary step sequences on one channel: customer / admin initiations (own token, grouped token, other channel's token, foreign token, wrong channel, ids a maintainer would reject, over-funded amounts) and the robot's createTo / cancel / commit / deleteFrom / deleteTo attempted at random times, also out of turn and repeated, the id now and then spelled ./id, id/ or x/../id (the same record); a cancellation now and then sent in ONE batch with the same customer's new transfer under the same id and its cancellation; observed after every step. (two) interleavings of user initiations on both channels with a robot that picks, at random, among the steps its protocol enables from the two ledgers, and with customers' certificates calling the robot's five functions (create-to with the origin's real record, cancel, commit, deletes; an accepted submission is executed by the robot's next batch); both ledgers observed at the end. In both parts the records of a channel are now and then rewritten into the binary form of earlier releases, which the library reads as well. (three) one transfer under a plain, grouped or many-part ticker (TT, TT_G1, TT_A_G1, TT_A_B, TT_B_A_B, ...), created and cancelled, or carried through the whole protocol there and back again: every balance entry of both channels before and after. Non-trivial: a history with >= 2 successful and >= 2 rejected steps / >= 3 robot steps."
 	n := c.N(120, 2500)
 	for i := 0; i < n; i++ {
 		if i%2 == 0 {
@@ -403,8 +403,50 @@ func c10One(c *Ctx) error {
 			term = fmt.Sprintf("OCreateTo %d (CC %d %d %d %d %d %s %s false) true", cw.idN(id), cw.chN[strings.ToUpper(tr.GetFrom())], cw.chN[strings.ToUpper(tr.GetTo())], s, g,
 				cw.w.Interner().Addr((&Account{Addr: tr.GetUser()}).AddrString()), coqZ(new(big.Int).SetBytes(tr.GetAmount())), coqBool(fwd))
 		case r < 65:
-			msg = cw.robotTx(ch, "cancelCCTransferFrom", spelled(id))
 			term = fmt.Sprintf("OCancelFrom %d", cw.idN(id))
+			if f := cw.rec(ch, "/transfer/from/", id); f != nil && !f.GetIsCommit() && rng.Intn(3) == 0 {
+				// ONE batch of three: the cancellation, the same customer's new transfer under the SAME id (same token and
+				// amount, which the refund has just made available again), and its cancellation. When all three succeed
+				// the batch amounts to the one cancellation the model is given.
+				var owner *Account
+				for _, u := range cw.users {
+					if string(u.Addr) == string(f.GetUser()) {
+						owner = u
+					}
+				}
+				if owner != nil {
+					var ids []string
+					for j := 0; j < 3 && msg == ""; j++ {
+						var sub *TxResult
+						if j == 1 {
+							cw.nonce++
+							sub = cw.w.Submit(ch, "channelTransferByCustomer", cw.w.SignedArgs(ch, "channelTransferByCustomer", owner, strconv.FormatUint(cw.nonce, 10),
+								id, f.GetTo(), f.GetToken(), new(big.Int).SetBytes(f.GetAmount()).String()))
+						} else {
+							sub = cw.w.Peer.Invoke(ch, cw.w.Robot.Creator, "cancelCCTransferFrom", id)
+						}
+						if !sub.OK() {
+							msg = "SUBMISSION REFUSED: " + sub.Message
+						}
+						ids = append(ids, sub.TxID)
+					}
+					if msg == "" {
+						out := cw.w.ExecBatchIDs(ch, ids...)
+						if out.Resp == nil || len(out.Resp.GetTxResponses()) != 3 {
+							msg = "BATCH FAILED " + out.Res.Message
+						} else {
+							for _, tr := range out.Resp.GetTxResponses() {
+								if e := tr.GetError().GetError(); e != "" && msg == "" {
+									msg = "IN A BATCH OF THREE: " + e
+								}
+							}
+						}
+					}
+					c.Count("one_cancel_reinitiate_cancel_in_one_batch")
+					break
+				}
+			}
+			msg = cw.robotTx(ch, "cancelCCTransferFrom", spelled(id))
 		case r < 80:
 			msg = cw.robotNB(ch, "commitCCTransferFrom", spelled(id))
 			term = fmt.Sprintf("OCommitFrom %d", cw.idN(id))
